@@ -452,9 +452,14 @@ def check_case(ctx, case, rng, lean_pairs, small=True, extra_slices=()):
     return finish
 
 
+_STALE = []
+
+
 def model_stale(case, what, impl_v, model_v):
-    raise RuntimeError(f"C19 model/implementation mismatch (spec agrees with implementation or has no say): {what} "
-                       f"case={case.key()} impl={impl_v!r} model={model_v!r}")
+    # recorded, and raised at the end of correspond(): the remaining families still run, so that a change of the code that
+    # also breaks the property is reported with its concrete failing input and not only as a broken correspondence
+    _STALE.append(f"C19 model/implementation mismatch (spec agrees with implementation or has no say): {what} "
+                  f"case={case.key()} impl={impl_v!r} model={model_v!r}")
 
 
 def compare_case(ctx, case, impl, sigmas, head, model, specs, sweep, grid, extra_slices, conc):
@@ -1874,6 +1879,13 @@ def _lap(ctx, label, t=[None]):
 
 
 def correspond(ctx):
+    del _STALE[:]
+    _correspond(ctx)
+    if _STALE:
+        raise RuntimeError(f"{len(_STALE)} mismatches; first: {_STALE[0]}")
+
+
+def _correspond(ctx):
     if hasattr(sys, "set_int_max_str_digits"):
         sys.set_int_max_str_digits(0)
     rng = ctx.rng
